@@ -8,15 +8,17 @@ Import RecordSetNotations.
 Record smx := mk_smx {
   htree : tree;
   hlive : list bytes;          (* registered domain patterns (lower-cased), as the implementation accepted them *)
+  hthen : list (bytes * list bytes);   (* … and the interceptor names that existed when each was added: a rule keeps the
+                                          meaning it had at Add time (the segment is built then) *)
   hic : icpts;
   hunsup : bool;
   haddonly : bool;
   mpid : bytes;
 }.
-#[export] Instance eta_smx : Settable _ := settable! mk_smx <htree; hlive; hic; hunsup; haddonly; mpid>.
+#[export] Instance eta_smx : Settable _ := settable! mk_smx <htree; hlive; hthen; hic; hunsup; haddonly; mpid>.
 
 Definition init_mx (pid : bytes) (h : list line) : smx :=
-  {| htree := hosts_new; hlive := []; hic := []; hunsup := false; haddonly := true; mpid := pid |}.
+  {| htree := hosts_new; hlive := []; hthen := []; hic := []; hunsup := false; haddonly := true; mpid := pid |}.
 
 Definition params_of (l : list bytes) : params :=
   fold_left (fun acc kv => ctx_set acc (fst kv) (snd kv)) (pairs l) [].
@@ -85,10 +87,17 @@ Definition pv_expect (name : bytes) (vs : list bytes) (path : bytes) (ps : param
     end
   end.
 
+(* a rule name of [p] that is an interceptor now but was not when [p] was added (or the reverse) *)
+Definition meaning_changed (s : smx) (p : bytes) (ts : list tok) : bool :=
+  let thn := opt_default [] (alookup p (hthen s)) in
+  existsb (fun t => match t with
+                    | TPar _ _ rule => negb (Bool.eqb (mem rule thn) (ahas rule (hic s)))
+                    | TLit _ => false end) ts.
+
 Definition hosts_live_toks (s : smx) : option (list (bytes * list tok)) :=
   fold_right (fun p acc =>
     match acc, tokens p with
-    | Some l, Some ts => if all_kinds_ok (hic s) ts then Some ((p, ts) :: l) else None
+    | Some l, Some ts => if all_kinds_ok (hic s) ts && negb (meaning_changed s p ts) then Some ((p, ts) :: l) else None
     | _, _ => None
     end) (Some []) (hlive s).
 
@@ -176,8 +185,10 @@ Definition absorb_mx (s : smx) (o : line) (r : list bytes) : smx :=
   let op := arg 0 o in
   if beqb op (bs "hadd") && obs_is r "ok" then
     s <| hlive := to_lower (arg 1 o) :: filter (fun p => negb (beqb p (to_lower (arg 1 o)))) (hlive s) |>
+      <| hthen := aset (to_lower (arg 1 o)) (map fst (hic s)) (hthen s) |>
   else if beqb op (bs "hdel") then
     s <| hlive := filter (fun p => negb (beqb p (to_lower (arg 1 o)))) (hlive s) |> <| haddonly := false |>
+      <| hthen := adelete (to_lower (arg 1 o)) (hthen s) |>
   else s.
 
 Definition tags_mx (s s' : smx) (o : line) (r : list bytes) : list bytes :=
